@@ -38,3 +38,17 @@ _case("x_zip_enum", xs=_L, ys=_L)
 _case("x_try", a=Int(-6, 6), items=_L)
 _case("x_chain_cmp", a=_I, b=_I, c=_I)
 _case("x_seq_eq", xs=ListOf(Int(0, 2), max_len=3), ys=ListOf(Int(0, 2), max_len=3), k=Int(0, 3))
+_case("x_namedtuple", a=_I, b=_I, items=_L)
+_case("x_iadd_subscript", items=_L, v=Int(0, 5))
+_case("x_minmax_single", a=_I)
+
+from spec import xcheck_cases as _xc  # noqa: E402
+
+
+@contract(_K + "XBox.x_iadd_attr", property="XC", replayable=False)
+class _x_iadd_attr:
+    self_shape = Obj(_xc.XBox, dict(items=_L))
+    params = dict(v=Int(0, 5))
+_case("x_max_short_slice", items=ListOf(Int(0, 6), max_len=7), i=Int(-1, 3))
+_ROWS = ListOf(ListOf(Int(0, 3), max_len=3), max_len=3)
+_case("x_generator", rows=_ROWS, extra=_ROWS, k=Int(0, 3), w=Int(0, 4)).generator_as_list = True
